@@ -6,5 +6,9 @@ from units import round_common as R
 
 def build(S: Sources) -> Unit:
     errs = []
-    return Unit(property_id="C02", verus=[], kani=R.round_kani(S, errs, "C02"), build_errors=errs,
+    # discarded tuning samples leave no allocation figures behind (they would be attributed to the reported samples
+    # stored later under the same indices): SampleCollection::clear under contract (Verus, same contract as in C05)
+    from units import C05
+    vfiles = guarded(lambda: C05.clear_file(S, "c02"), errs, [])
+    return Unit(property_id="C02", verus=vfiles, kani=R.round_kani(S, errs, "C02"), build_errors=errs,
                 undecided_clauses=R.ROUND_UNDECIDED + ["allocations made by other threads / by threads divan does not control"])
